@@ -2,7 +2,7 @@ from pyvc.cbase import Registry
 
 
 def build_registry():
-    from . import externs, expect, spawnbase, screen, ansi, utils, transports, lifecycle, readpath, pxssh, run, replwrap, aio, patterns, exact, interact
+    from . import externs, expect, spawnbase, screen, ansi, utils, transports, lifecycle, readpath, pxssh, run, replwrap, aio, patterns, exact, interact, ctors
     reg = Registry()
     externs.register(reg)
     spawnbase.register(reg)
@@ -20,4 +20,5 @@ def build_registry():
     patterns.register(reg)
     exact.register(reg)
     interact.register(reg)
+    ctors.register(reg)
     return reg
